@@ -168,6 +168,91 @@ fn msg_producer_for_size_d(rng: &mut Rng, s: &SizeInfo, eci: Option<u32>) -> (Pr
     (Producer::Raw { size: s.idx, data: raw_data(rng, s) }, Vec::new())
 }
 
+/// Substitution by a valid message: the sender encodes message A; within the correction radius the medium
+/// overwrites data codewords with what ANOTHER message B (empty, a prefix or suffix of A, A with one byte
+/// changed, an unrelated one) produces at the same positions in the same symbol size, so that the damaged
+/// data part looks - in part or completely - like a well-formed stream of its own (e.g. nothing but
+/// correctly randomised padding). Error correction must still restore A.
+pub fn impostor_faults(
+    s: &SizeInfo,
+    data_a: &[u8],
+    data_b: &[u8],
+    order: usize,
+    limit: Option<usize>,
+) -> Vec<Fault> {
+    let n = data_a.len().min(data_b.len()).min(s.n_data);
+    let mut diffs: Vec<usize> = (0..n).filter(|i| data_a[*i] != data_b[*i]).collect();
+    if order == 1 {
+        diffs.reverse();
+    }
+    let mut per_block = vec![0usize; s.blocks];
+    let mut out = Vec::new();
+    for p in diffs {
+        if let Some(l) = limit {
+            if out.len() >= l {
+                break;
+            }
+        }
+        let b = s.block_of(p);
+        if per_block[b] < s.t() {
+            per_block[b] += 1;
+            out.push(Fault::new("cw_impostor", Op::CwSet { pos: p as u32, val: data_b[p] }));
+        }
+    }
+    out
+}
+
+fn impostor_trace(rng: &mut Rng, s: &SizeInfo) -> Option<Trace> {
+    let cap = rough_capacity(s);
+    let len = if rng.chance(2, 3) { rng.range(1, (2 * s.t()).min(cap).max(1)) } else { rng.range(1, 2 * cap) };
+    let mut msg = gen_message(rng, len);
+    let modes = if rng.chance(3, 4) { 0x3F } else { (rng.range(1, 0x3F) as u8) | 1 };
+    let macros = rng.chance(3, 4);
+    let list = ListSpec::Single(s.idx);
+    let mut data_a = None;
+    for _ in 0..5 {
+        match produce_msg(&msg, &list, modes, macros, false, None) {
+            Ok(Some((_, d, _))) => {
+                data_a = Some(d);
+                break;
+            }
+            _ => {
+                let nl = msg.len() / 2;
+                msg.truncate(nl);
+            }
+        }
+    }
+    let data_a = data_a?;
+    let other: Vec<u8> = match rng.below(6) {
+        0 | 1 => Vec::new(),
+        2 => msg[..rng.below(msg.len().max(1))].to_vec(),
+        3 => msg[rng.below(msg.len().max(1))..].to_vec(),
+        4 => {
+            let mut m = msg.clone();
+            if !m.is_empty() {
+                let i = rng.below(m.len());
+                m[i] = gen_message(rng, 1).first().copied().unwrap_or(b'A');
+            }
+            m
+        }
+        _ => {
+            let l = rng.range(0, msg.len() + 2);
+            gen_message(rng, l)
+        }
+    };
+    let data_b = match produce_msg(&other, &list, modes, macros, false, None) {
+        Ok(Some((_, d, _))) => d,
+        _ => return None,
+    };
+    let order = rng.below(2);
+    let limit = if rng.chance(1, 4) { Some(rng.range(1, s.t())) } else { None };
+    let faults = impostor_faults(s, &data_a, &data_b, order, limit);
+    if faults.is_empty() {
+        return None;
+    }
+    Some(Trace { prop: "C03".into(), producer: Producer::Msg { msg, list, modes, macros, fnc1: false, eci: None }, faults })
+}
+
 fn producer_for_size(rng: &mut Rng, s: &SizeInfo, msg_pct: usize) -> Producer {
     producer_for_size_d(rng, s, msg_pct).0
 }
@@ -1506,7 +1591,9 @@ pub fn fabricate_stream(rng: &mut Rng) -> Vec<u8> {
     let n_tokens = rng.range(1, 6);
     // string-path mode: charset switches interleaved with constructs that emit high bytes
     let eci_heavy = rng.chance(1, 5);
+    let mut tok_starts: Vec<usize> = Vec::new();
     for tok in 0..n_tokens {
+        tok_starts.push(out.len());
         let choice = if eci_heavy {
             if tok % 2 == 0 { 11 } else { *rng.pick(&[2usize, 9, 0, 2, 9, 12]) }
         } else {
@@ -1656,6 +1743,25 @@ pub fn fabricate_stream(rng: &mut Rng) -> Vec<u8> {
                 }
             }
             _ => out.push(rng.byte()),
+        }
+    }
+    if rng.chance(1, 25) && !tok_starts.is_empty() {
+        // duplication: one construct of the stream delivered again and again (counts, not values or positions,
+        // are what a fixed-capacity buffer or a narrow counter depends on)
+        let k = rng.below(tok_starts.len());
+        let a = tok_starts[k];
+        let b = if k + 1 < tok_starts.len() { tok_starts[k + 1] } else { out.len() };
+        if b > a {
+            let seg: Vec<u8> = out[a..b].to_vec();
+            let e = rng.range(1, 12);
+            let n = ((1usize << e) + rng.below(3)).saturating_sub(1).max(2);
+            let n = n.min(100_000 / seg.len()).max(2);
+            let tail: Vec<u8> = out[b..].to_vec();
+            out.truncate(b);
+            for _ in 0..n - 1 {
+                out.extend_from_slice(&seg);
+            }
+            out.extend_from_slice(&tail);
         }
     }
     if rng.chance(1, 4) && !out.is_empty() {
@@ -1829,6 +1935,11 @@ pub fn generate(ctx: &Ctx, prop: &str, seed: u64, i: u64) -> Trace {
 
 fn gen_c03(ctx: &Ctx, rng: &mut Rng, i: u64) -> Trace {
     let s = &SIZES[pick_size(rng, i, false)];
+    if rng.chance(1, 16) {
+        if let Some(t) = impostor_trace(rng, s) {
+            return t;
+        }
+    }
     let (producer, msg_data) = producer_for_size_d(rng, s, 25);
     let mut faults = Vec::new();
     let t = gen_c03_faults(ctx, rng, s, &mut faults);
